@@ -10,6 +10,8 @@ STRENGTHENED = {
     'C12-A': 'initially a harness error (regular expressions with IGNORECASE were outside the regex model): the matcher now implements IGNORECASE, the check reports the violation',
     'C17-A': 'initially missed by C17 (float carriers only): C17 now stores Python-int carriers with power-of-two scales',
     'C17-B': 'initially missed by C17 (size inference driven with floats only): C17 now infers sizes from Python-int carriers',
+    'C15-B': 'initially missed by C15 (main diagonal only): trace and diagonal now run with offsets -1, 0, 1 on square and non-square matrices',
+    'C06-B': 'initially missed by C06 (n_int with another size was driven with explicit signedness only): default signedness added',
     'C18-A': 'initially missed by the quick tier of C18 (one randomly chosen signedness for the 64-bit raw-string row): both signednesses are now always run',
 }
 def main():
